@@ -33,6 +33,7 @@ import (
 	tokenfactorytypes "github.com/palomachain/paloma/v2/x/tokenfactory/types"
 	treasurykeeper "github.com/palomachain/paloma/v2/x/treasury/keeper"
 	treasurytypes "github.com/palomachain/paloma/v2/x/treasury/types"
+	valsettypes "github.com/palomachain/paloma/v2/x/valset/types"
 )
 
 // C03: state kept on behalf of a principal changes only through a transaction
@@ -1794,4 +1795,69 @@ func (d *c03Dir) confirmHistory() {
 	r.Op(line(), strings.Join(outs, ",")+"|"+fin)
 	r.Stat("sc:confirm-history")
 	r.Case(line(), nontrivial)
+}
+
+// TestC03SharedKey replays, on the real application, the counterexample the formal side proves
+// for the batch-confirmation model (Props/C03.lean `registered_accounts_not_injective`,
+// `shared_account_confirms_once`): the collision rule of valset.SetExternalChainInfoState compares
+// address STRINGS while ConfirmBatch compares parsed 20-byte accounts, so validator A can register
+// validator B's EVM address in another spelling; a signature made by B's key over a batch is then
+// accepted under orchestrator A, and B's own confirmation of that batch is refused afterwards
+// (one confirmation per key).  Not run by ./check (it is a directed replay, not a generator);
+// it FAILS if the implementation stops behaving like the model at this point.
+func TestC03SharedKey(t *testing.T) {
+	w := NewZooWorld(t, 1)
+	fa := w.FA
+	A, B := fa.Vals[0], fa.Vals[1]
+	lower := strings.ToLower(zooEthHex(B))
+	upper := "0x" + strings.ToUpper(zooEthHex(B)[2:])
+	other := upper
+	if other == zooEthHex(B) {
+		other = lower
+	}
+	if other == zooEthHex(B) {
+		t.Skip("B's address has no hex letters: only one spelling")
+	}
+	reg := &valsettypes.MsgAddExternalChainInfoForValidator{ChainInfos: []*valsettypes.ExternalChainInfo{
+		{ChainType: FAEvmChainType, ChainReferenceID: ZooChain, Address: other, Pubkey: zooAccBytes(zooEthHex(A))},
+	}, Metadata: FAMeta(A.Addr, A.Addr)}
+	if r := w.Deliver(A, A, reg); !r.OK() {
+		t.Fatalf("model says the registration of %s (B holds %s) is accepted, the chain refused it: %s", other, zooEthHex(B), r.Log)
+	}
+	// the exact string IS refused
+	regSame := &valsettypes.MsgAddExternalChainInfoForValidator{ChainInfos: []*valsettypes.ExternalChainInfo{
+		{ChainType: FAEvmChainType, ChainReferenceID: ZooChain, Address: zooEthHex(B), Pubkey: zooAccBytes(zooEthHex(A))},
+	}, Metadata: FAMeta(A.Addr, A.Addr)}
+	if r := w.Deliver(A, A, regSame); r.OK() {
+		t.Fatalf("model says the registration of B's exact address string by A is refused, the chain accepted it")
+	}
+	d := &c03Dir{t: t, w: w}
+	nonce, cp, _, ok := d.freshBatch()
+	if !ok {
+		t.Fatalf("no batch")
+	}
+	sig, err := ethcrypto.Sign(ethcrypto.Keccak256(append([]byte("\x19Ethereum Signed Message:\n32"), cp...)), B.EthPriv)
+	if err != nil {
+		t.Fatal(err)
+	}
+	confirm := func(sender, orch *FAAccount) FATxResult {
+		return w.Deliver(sender, sender, &skywaytypes.MsgConfirmBatch{Nonce: nonce, TokenContract: ZooBridgeERC20,
+			EthSigner: zooEthHex(B), Orchestrator: orch.Addr.String(), Signature: hex.EncodeToString(sig)})
+	}
+	// B's signature, relayed by A, filed under A
+	if r := confirm(A, A); !r.OK() {
+		t.Fatalf("model says B's signature is accepted under orchestrator A (A registered B's account), the chain refused: %s", r.Log)
+	}
+	// B's own confirmation of the same batch is now refused: one confirmation per key
+	if r := confirm(B, B); r.OK() {
+		t.Fatalf("model says B's own confirmation is refused after its key confirmed under A, the chain accepted it")
+	}
+	confs, err := fa.App().SkywayKeeper.GetBatchConfirmByNonceAndTokenContract(fa.CtxCached(), nonce, zooBridgeContract())
+	if err != nil {
+		t.Fatal(err)
+	}
+	if len(confs) != 1 || confs[0].Orchestrator != A.Addr.String() {
+		t.Fatalf("model says exactly one confirmation, filed under A; the chain has %v", confs)
+	}
+	t.Logf("C03 shared key: A=%s registered %s (B holds %s); B's signature stored under A, B's own confirmation refused", A.Addr, other, zooEthHex(B))
 }
